@@ -833,6 +833,14 @@ class Simulation:
             # Copy synthetic to observed.
             self.data['observed'] = self.data['synthetic'].copy()
 
+            # Misfit, gradient, residual, and weights of the former observed
+            # data are not valid any longer.
+            self._misfit = None
+            self._gradient = None
+            for key in ['residual', 'weights']:
+                if key in self.data.keys():
+                    del self.data[key]
+
             # Add noise.
             if kwargs.pop('add_noise', True):
                 self.survey.add_noise(**kwargs)
